@@ -243,8 +243,19 @@ def run_case(out, n, plabel, variant, A0, Ad, stored, sub, given, seed):
             bad('condense', 'mutates-operand', "A, b or x changed", fname)
         if nonsing:
             try:
+                sys_snap = (Ac.toarray().tobytes(), np.asarray(bc).tobytes(), np.asarray(xr).tobytes())
                 y = solve(Ac, bc, xr, Ir)
                 chk_solution(out, bad, 'condense+solve', y, Ad, b0, x0, Ir, Dr, fname)
+                # the solve is not an overwriting operation: the caller's x (and A, b) and the condensed system
+                # it was given stay as they were, so the same system can be solved again
+                if snapshot(A, b, x) != snap:
+                    bad('condense+solve', 'mutates-operand', "A, b or the prescribed-value vector x changed during solve", fname)
+                if (Ac.toarray().tobytes(), np.asarray(bc).tobytes(), np.asarray(xr).tobytes()) != sys_snap:
+                    bad('condense+solve', 'mutates-system', "the condensed system (A_II, b_I, x) changed during solve", fname)
+                y2 = solve(Ac, bc, xr, Ir)
+                if not np.array_equal(np.asarray(y2), np.asarray(y)):
+                    bad('condense+solve', 'second-solve-differs', f"solving the same condensed system twice: {np.asarray(y).tolist()} "
+                        f"then {np.asarray(y2).tolist()}", fname)
             except Exception as e:
                 bad('condense+solve', 'exception', repr(e), fname)
             out.outcome(('solve', n, len(Ir)))
@@ -259,6 +270,8 @@ def run_case(out, n, plabel, variant, A0, Ad, stored, sub, given, seed):
                 X = (np.arange(len(Ir2) * kcols).reshape(len(Ir2), kcols) + 1.0) * np.array([1.0, -2.0])
                 L0 = np.array([1.5, -2.5])
                 Lr, Y = solve(Ac2, Mc2, xr2, Ir2, solver=lambda K, M, **k: (L0, X))
+                if snapshot(A, b, x) != snap:
+                    bad('solve-eigen', 'mutates-operand', "A, b or x changed during the eigen solve/expansion", fname)
                 want = np.tile(x0[:, None], (1, kcols))
                 want[Ir2] = X
                 if not (np.array_equal(Y, want) and np.array_equal(Lr, L0)):
@@ -389,7 +402,14 @@ def run_case(out, n, plabel, variant, A0, Ad, stored, sub, given, seed):
                     continue
                 if Bw.shape[0] and abs(np.linalg.det(Bw)) > 0.5:
                     try:
+                        msnap = [np.asarray(a.toarray() if sp.issparse(a) else a).tobytes() for a in sysm[:3]]
                         y = solve(*sysm)
+                        if [np.asarray(a.toarray() if sp.issparse(a) else a).tobytes() for a in sysm[:3]] != msnap:
+                            bad('mpc+solve', 'mutates-system', "the system returned by mpc changed during solve")
+                        y2 = solve(*sysm)
+                        if not np.array_equal(np.asarray(y2), np.asarray(y)):
+                            bad('mpc+solve', 'second-solve-differs', f"solving the same mpc system twice: {np.asarray(y).tolist()} "
+                                f"then {np.asarray(y2).tolist()}")
                         r1 = y[S] - (T @ y[Mi] + g)
                         keep = np.concatenate((U, Mi)).astype(int)
                         r2 = (AU @ y - b0)[keep]
